@@ -3,7 +3,7 @@ import hashlib, json, os, re
 from . import common
 from .common import Violation, TieBroken
 
-FV = '/repo/formal-verification'
+FV = os.path.join(common.REPO, 'formal-verification')
 THEOREMS = ['Smtb.Properties.C17.referenced_defined', 'Smtb.Properties.C17.circuits_present']
 
 
